@@ -4,7 +4,7 @@
   round trip (build + parse + GetGroup, without and with dictionary, any nesting) is stated as `…_full` and checked on
   every run by the monitor clauses `group_roundtrip` / `followers_found` and the correspondence.
 -/
-import Qfx.Lemmas.CodecGroup
+import Qfx.Lemmas.CodecRound
 open Qfx Qfx.Spec
 
 /-- `Write` starts with `<tag>=<number of entries>` -/
@@ -145,6 +145,47 @@ theorem C13_roundtrip_flat (gtag d : Tag) (ts : List Tag) (hts : (d :: ts).Nodup
     have hm : t ∈ d :: ts := (hes e (List.mem_of_getElem? hi)).1 _ (latest_mem e t v hl)
     exact hfind ((canon_tags_sublist (d :: ts) e).nodup hts) t v ((canon_mem (d :: ts) e t v).2 ⟨hm, hl⟩)
 
+/-- THE TRIP THROUGH THE WIRE, WITHOUT DICTIONARY (templates without nested groups).  "A repeating group written into a message
+    and read back from the parsed bytes through the same template yields the same number of entries with the same fields
+    and values …".  For EVERY sequence of Message API operations (tags in their proper section, int64 tags other than
+    XMLDataLen, SOH-free values) that leaves BeginString and MsgType set and a body group `gtag` holding what `SetGroup`
+    stored for entries built by arbitrary setter calls on the template tags (`GroupIn`: template tags distinct, every entry
+    sets the delimiter, no other TagValue of the message carries the group tag or a template tag — whatever else is in
+    header, body before and after the group, and trailer):
+    `build`, then `ParseMessage` (no dictionary), then `GetGroup(template)` on the parsed body succeeds with one entry per
+    entry written, and in entry `i` every tag that was set maps to a field carrying the latest value set. -/
+theorem C13_roundtrip_nodict_flat (fx : Fixes) (ops : List MOp) (hp : ∀ op ∈ ops, op.proper ∧ op.wire) (m : Message)
+    (hrun : runMOps ops Message.new = .ok m)
+    (h8 : (alFind m.header.lookup 8).isSome = true) (h35 : (alFind m.header.lookup 35).isSome = true)
+    (gtag d : Tag) (ts : List Tag) (es : List (List (Tag × Bytes))) (hG : GroupIn m gtag d ts es)
+    (bytes : Bytes) (m' : Message) (hbuild : m.build Fixes.cur = .ok (bytes, m')) (hsmall : bytes.length < 9223372036854775808) :
+    ∃ (p : Message) (f : Field) (gs : List GEntry),
+      parseMessage fx Dicts.none bytes = .ok p ∧ alFind p.body.lookup gtag = some f ∧
+      getGroup (flatTmpl (d :: ts)) (f.full p.fields) = .ok gs ∧ gs.length = es.length ∧
+      ∀ (i : Nat) (e : List (Tag × Bytes)), es[i]? = some e → ∃ g : GEntry, gs[i]? = some g ∧
+        ∀ t v, latest e t = some v → ∃ tail, alFind g.lookup t = some (TagValue.init t v :: tail) := by
+  obtain ⟨hb, hw⟩ := runMOps_wired ops _ m Built.new Wired.new hp hrun
+  cases hf8 : alFind m.header.lookup 8 with
+  | none => rw [hf8] at h8; cases h8
+  | some f8 =>
+    cases hf35 : alFind m.header.lookup 35 with
+    | none => rw [hf35] at h35; cases h35
+    | some f35 =>
+      obtain ⟨l, hl⟩ := hb.ph.owned 8 f8 hf8
+      subst hl
+      obtain ⟨tv, rest, hl, ht⟩ := hb.ph.head 8 l hf8
+      subst hl
+      have hone := (hb.ph.special 8 _ hf8 tv (by simp) (Or.inl ht)).1
+      rw [hone] at hf8
+      exact roundtrip_nodict_flat fx m hb hw tv f35 hf8 hf35 gtag d ts es hG bytes m' hbuild hsmall
+
+/-- the `GroupIn` hypothesis is what `SetGroup` establishes: it stores `Write`'s output under the group tag -/
+theorem C13_setgroup_stores_write (m m' : Message) (gtag d : Tag) (ts : List Tag) (hts : (d :: ts).Nodup)
+    (es : List (List (Tag × Bytes))) (hes : ∀ e ∈ es, ∀ p ∈ e, p.1 ∈ d :: ts)
+    (h : m.setGroup .b gtag (flatTmpl (d :: ts)) (es.map fldsOf) = .ok m') :
+    alFind m'.body.lookup gtag = some (.owned (countTV gtag es.length :: es.flatMap (fun e => serEntry (canon (d :: ts) e)))) :=
+  setGroup_stores m m' gtag d ts hts es hes h
+
 /-! ## not (yet) theorems -/
 
 /-- round trip without dictionary, any nesting depth: what `getgrp` must observe after build + parse -/
@@ -171,6 +212,7 @@ example :
 
 /- Clause checklist (properties.jsonl C13):
    "same number of entries"                                  C13_read_count, C13_write_starts_with_count, C13_read_zero
+   the whole trip build → parse (no dictionary) → GetGroup       C13_roundtrip_nodict_flat (templates without nesting; any message around the group)
    "same fields and values in the same order, nested groups" C13_roundtrip_flat (Write then Read, templates without nesting, any setter calls),
                                                              C13_read_inverts_wire_flat (whole Read, templates without nesting);
                                                              C13_read_member, C13_read_delimiter (one step each, any template); nested: C13_roundtrip_nodict_full
